@@ -680,6 +680,8 @@ func checkC06(w *World, r *Report) {
 	c06Bookkeeping(w, r, ra)
 	c06ChangeDetection(w, r, ra)
 	c06NodeRemoval(w, r, ra)
+	c06TakeoverComplete(w, r, ra)
+	c06UpdateKeepsOrder(w, r, ra)
 	// a rejected change leaves the live tree untouched only if the working copy shares nothing with it
 	c07Clone(w, r, ra)
 }
@@ -1280,5 +1282,164 @@ func c06DetachOnlyChildless(w *World, r *Report, helper *ssa.Function) {
 			}
 		}
 		r.Ob(ri, w.FnName(helper)+"|childless|"+k, helper.Pos(), ok, "the child is detached without a check that its "+k+" are empty: the rules below that child are unlinked although they are still loaded")
+	}
+}
+
+// c06TakeoverComplete (C06.8): where a node takes over another node field by field (the emptied
+// parent pulling up its only child), it takes over every field: a field left out keeps the value
+// of the node that disappears (its backtracking flag, its wildcard children) and matching differs
+// from a fresh load. A whole-struct copy (*a = *b) satisfies this trivially and produces no
+// obligation.
+func c06TakeoverComplete(w *World, r *Report, ra *repoAnchors) {
+	ri := r.Rule("C06.8", 0, "a tree node that takes over another node field by field takes over every field of it")
+	st, ok := ra.treeT.Underlying().(*types.Struct)
+	if !ok {
+		return
+	}
+	for _, fn := range w.Funcs {
+		if fn.Blocks == nil || !strings.HasSuffix(fnPkgPath(fn), "/radixtree") || (fn.Origin() == nil && fn.TypeParams().Len() > 0) {
+			continue
+		}
+		type pair struct{ dst, src ssa.Value }
+		taken := map[pair]map[string]bool{}
+		eachInstr(fn, func(in ssa.Instruction) {
+			s, isSt := in.(*ssa.Store)
+			if !isSt {
+				return
+			}
+			fa, isFA := s.Addr.(*ssa.FieldAddr)
+			if !isFA || derefNamed(fa.X.Type()) == nil || derefNamed(fa.X.Type()).Origin() != ra.treeT.Origin() {
+				return
+			}
+			f := fieldOf(fa.X.Type(), fa.Field)
+			if f == nil {
+				return
+			}
+			// the stored value reads the same field of another node
+			dependsOn(w, s.Val, func(x ssa.Value) bool {
+				u, isU := x.(*ssa.UnOp)
+				if !isU {
+					return false
+				}
+				sfa, isSFA := u.X.(*ssa.FieldAddr)
+				if !isSFA || sfa.X == fa.X || derefNamed(sfa.X.Type()) == nil || derefNamed(sfa.X.Type()).Origin() != ra.treeT.Origin() {
+					return false
+				}
+				if sf := fieldOf(sfa.X.Type(), sfa.Field); sf != nil && sf.Name() == f.Name() {
+					p := pair{fa.X, sfa.X}
+					if taken[p] == nil {
+						taken[p] = map[string]bool{}
+					}
+					taken[p][f.Name()] = true
+				}
+				return false
+			})
+		})
+		n := 0
+		for p, fields := range taken {
+			if len(fields) < 2 {
+				continue
+			}
+			// preceded by a copy of the whole node: nothing can be left out
+			whole := false
+			eachInstr(fn, func(in ssa.Instruction) {
+				if s, ok := in.(*ssa.Store); ok && s.Addr == p.dst {
+					if u, isU := s.Val.(*ssa.UnOp); isU && u.Op == token.MUL && u.X == p.src {
+						whole = true
+					}
+				}
+			})
+			if whole {
+				continue
+			}
+			n++
+			var missing []string
+			for i := 0; i < st.NumFields(); i++ {
+				if !fields[st.Field(i).Name()] {
+					missing = append(missing, st.Field(i).Name())
+				}
+			}
+			r.Analysed(w.FnName(fn))
+			r.Ob(ri, fmt.Sprintf("%s|takeover-complete#%d", w.FnName(fn), n), fn.Pos(), len(missing) == 0, "a node takes over another node field by field but leaves out "+strings.Join(missing, ", ")+": these keep the values of the node that is removed, so matching after the removal differs from a fresh load")
+		}
+	}
+}
+
+// c06UpdateKeepsOrder (C06.9): the place of a rule in its rule set decides which of several rules
+// sharing a path expression is used. The tree appends a value behind those already in a node, so an
+// update that re-adds only the changed rules puts them behind the unchanged rules they precede in
+// the rule set: matching then differs from a fresh load of the same rule set. Decided on the
+// mutator that both removes and adds (the update): what it hands to the adding helper is the
+// complete new rule set (the parameter, or a tail slice of it) - a computed subset only where that
+// subset is empty.
+func c06UpdateKeepsOrder(w *World, r *Report, ra *repoAnchors) {
+	ri := r.Rule("C06.9", 1, "an update adds rules to the tree only as the complete new rule set in its order (a partial re-add puts a changed rule behind the unchanged rules it precedes)")
+	n := 0
+	for _, fn := range ra.mutators {
+		var addCalls []ssa.CallInstruction
+		removes := false
+		for _, c := range callsIn(fn) {
+			callee := c.Common().StaticCallee()
+			if callee == nil || callee.Signature.Recv() == nil || derefNamed(callee.Signature.Recv().Type()) != ra.t || len(c.Common().Args) != 3 {
+				continue
+			}
+			for _, e := range w.CG().Out[callee] {
+				if e.Callee.Signature.Recv() == nil || derefNamed(e.Callee.Signature.Recv().Type()) == nil || derefNamed(e.Callee.Signature.Recv().Type()).Origin() != ra.treeT.Origin() {
+					continue
+				}
+				if strings.HasPrefix(e.Callee.Name(), "Add") {
+					addCalls = append(addCalls, c)
+				}
+				if strings.HasPrefix(e.Callee.Name(), "Delete") {
+					removes = true
+				}
+			}
+		}
+		if !removes || len(addCalls) == 0 {
+			continue
+		}
+		// the new rule set: the slice-typed parameter of the mutator
+		var newSet *ssa.Parameter
+		for _, p := range fn.Params[1:] {
+			if _, isSl := p.Type().Underlying().(*types.Slice); isSl {
+				newSet = p
+			}
+		}
+		if newSet == nil {
+			continue
+		}
+		for _, c := range addCalls {
+			n++
+			r.Analysed(w.FnName(fn))
+			arg := c.Common().Args[2]
+			ok, pos := true, c.Pos()
+			for _, s := range w.Sources(arg, c.Block()) {
+				v := stripConv(s.V)
+				if v == ssa.Value(newSet) {
+					continue
+				}
+				if sl, isSl := v.(*ssa.Slice); isSl && stripConv(sl.X) == ssa.Value(newSet) && sl.High == nil {
+					continue
+				}
+				if s.Kind == "nil" {
+					continue
+				}
+				// a computed subset: only where it is empty
+				sv := s.V
+				if !srcOnlyVia(fn, s, func(f Fact) bool {
+					l, kd := lenFact(f)
+					return l != nil && kd == "empty" && (l == sv || sameValue(l, sv))
+				}) {
+					ok = false
+					if in, isIn := s.V.(ssa.Instruction); isIn {
+						pos = in.Pos()
+					}
+				}
+			}
+			r.Ob(ri, fmt.Sprintf("%s|re-adds-complete-rule-set#%d", w.FnName(fn), n), pos, ok, "the update hands a computed subset of the new rule set (the new and changed rules) to the tree: they are appended behind the unchanged rules sharing their path expression, so after the update the rule-set order - and with it the rule that is used - differs from a fresh load")
+		}
+	}
+	if n == 0 {
+		r.Undecided(ri, "no repository mutator both removes and adds rules (the update)")
 	}
 }
